@@ -50,6 +50,7 @@ pub fn replay_special(_ctx: &Ctx, case: &serde_json::Value) -> i32 {
         Some("c09") => return c09::replay(case),
         Some("init") | Some("init-fault") => return c11::replay(case),
         Some("c08-fault") => return c08::replay_fault(case),
+        Some("c02-fault") => return c02::replay_fault(case),
         Some("c13") => return c13::replay(case),
         Some("c14") => return c14::replay(case),
         Some("c14bus") => return c14::replay_bus(case),
